@@ -21,6 +21,9 @@
 #include <veriblock/pop/crypto/secp256k1.hpp>
 using namespace altintegration;
 
+#ifndef HB
+#define HB 8      // symbolic bytes per 256-bit hash value (ids, layers, roots, node hashes); the remaining bytes are zero
+#endif
 // ---------------------------------------------------------------- uninterpreted node hash
 struct UfRec { uint8_t fid; uint8_t in[64]; uint8_t out[32]; };
 static UfRec ufRecs[24];
@@ -31,7 +34,8 @@ static uint256 ufHash(uint8_t fid, Slice<const uint8_t> a, Slice<const uint8_t> 
   r.fid = fid;
   for (size_t i = 0; i < a.size(); i++) r.in[i] = a[i];
   for (size_t i = 0; i < b.size(); i++) r.in[a.size() + i] = b[i];
-  for (int w = 0; w < 4; w++) { uint64_t x = nondet_u64(); for (int k = 0; k < 8; k++) r.out[8 * w + k] = (uint8_t)(x >> (8 * k)); }
+  for (int i = 0; i < 32; i++) r.out[i] = 0;
+  for (int w = 0; w < HB / 8; w++) { uint64_t x = nondet_u64(); for (int k = 0; k < 8; k++) r.out[8 * w + k] = (uint8_t)(x >> (8 * k)); }
   bool axioms = true;
   for (int j = 0; j < ufN; j++) {
     if (ufRecs[j].fid != fid) continue;
@@ -87,7 +91,7 @@ struct AP : AltChainParams {
     return gHdrOk;
   }
 };
-static void symBytes(uint8_t* p, int n) { for (int i = 0; i < n; i += 8) { uint64_t x = nondet_u64(); for (int k = 0; k < 8 && i + k < n; k++) p[i + k] = (uint8_t)(x >> (8 * k)); } }
+static void symBytes(uint8_t* p, int n) { for (int i = 0; i < n && i < HB; i += 8) { uint64_t x = nondet_u64(); for (int k = 0; k < 8 && i + k < n; k++) p[i + k] = (uint8_t)(x >> (8 * k)); } }
 static bool eqBytes(const uint8_t* a, const uint8_t* b, int n) { uint8_t d = 0; for (int i = 0; i < n; i++) d |= (uint8_t)(a[i] ^ b[i]); return d == 0; }
 static VbkChainParams& pickVbk(int which) {
   if (which == 0) return *new VbkChainParamsRegTest();
